@@ -396,6 +396,14 @@ where
             let response_idx = self.state.base.get().wrapping_add(queue.len());
             queue.push_back(ServiceResult::Pending);
 
+            // start the call before service readiness is checked again, a service
+            // that limits concurrency counts a request when its call begins
+            if let Poll::Ready(res) = Pin::new(&mut fut).poll(cx) {
+                drop(queue);
+                self.state.handle_result(res, response_idx, self.io.as_ref(), &self.codec);
+                return;
+            }
+
             let st = self.io.get_ref();
             let codec = self.codec.clone();
             let state = self.state.clone();
